@@ -117,9 +117,16 @@ func VerifHarness_C02() {
 	w.build()
 	mark1 := len(w.J.Calls)
 	w.J.FailBudget = F1
-	tBefore := verifClockNanos()
+	w.J.Stamp = true
+	tAccept := verifClockNanos()
 	_ = w.ctrl.RunOnce()
+	w.J.Stamp = false
 	w.J.FailBudget = w.J.Failed
+	for _, e := range w.J.Calls[mark1:] {
+		if e.OK && (e.Kind == "SetDesiredCapacity" || e.Kind == "Attach") {
+			tAccept = e.At // when the cloud accepted the (last part of the) request
+		}
+	}
 	j1 := w.summarize(g, mark1)
 	accepted := j1.increases > 0 || (fleet == 1 && j1.added > 0)
 	if refused == 1 {
@@ -155,9 +162,10 @@ func VerifHarness_C02() {
 	tAfter := verifClockNanos()
 	j2 := w.summarize(g, mark2)
 
-	// the lock was taken after tBefore and scan 2 consulted it before tAfter: when less than the
-	// cool-down lies between the two readings, scan 2 ran inside the cool-down -- to the nanosecond
-	inside := verifAnd(accepted, tAfter-tBefore < cd*1_000_000_000)
+	// the cloud accepted the request at tAccept (read inside the fake, as the accepted call returns)
+	// and scan 2 consulted the lock before tAfter: when less than the cool-down lies between the
+	// two readings, scan 2 ran inside the cool-down -- to the nanosecond, also when the cloud call blocked
+	inside := verifAnd(accepted, tAfter-tAccept < cd*1_000_000_000)
 	verifAssert("C02.no-activity-in-cooldown", verifImplies(inside, j2.total == 0))
 	verifReachIf("C02.in-cooldown-last-second", verifAnd(inside, gap+1 == cd))
 	verifReachIf("C02.in-cooldown", inside)
